@@ -133,6 +133,12 @@ SCENARIOS = [
 ]
 
 
+# load_fiber / unload_fiber translated from vm.rs on every run: rejections leave the state untouched, hand-over values, the caller link, both
+# designators of the running fiber, and every third fiber untouched, proved of the translated bodies (Props/FnsTie/FiberSwitch)
+THEOREM_MODULES.append("Yarel.Props.FnsTie.FiberSwitch")
+REQUIRED_THEOREMS += ['load_rejects_finished', 'load_rejects_called', 'load_effect', 'load_first_effect', 'load_isolation', 'load_parks_caller', 'load_target_keeps', 'unload_no_caller', 'unload_effect', 'unload_isolation', 'unload_parks_yielder', 'unload_caller_keeps']
+
+
 def interleaving_programs():
     """All interleavings of the calls of two fibers with 2 and 3 steps (enumerated, not sampled). Each fiber yields its step
     index and receives a token; expected output is computed here from the schedule alone."""
